@@ -2,6 +2,7 @@ package rules
 
 import (
 	"fmt"
+	"go/types"
 	"os"
 	"strings"
 
@@ -71,11 +72,12 @@ func encRecordSeq(c *core.Ctx, id string, hard bool) *eval.StructVal {
 
 // refList: what the list reader returns: n records whose sequence shows the gap mode they were read with.
 func refList(c *core.Ctx, n int) wireCanned {
-	return func(a []eval.Value) eval.Value {
-		hard, _ := a[1].(bool)
+	return func(a []eval.Value, sig *types.Signature) eval.Value {
+		hard, _ := wireFind(a, sig, func(t types.Type, v eval.Value) bool { _, ok := v.(bool); return ok }).(bool)
+		rd := wireFind(a, sig, func(t types.Type, v eval.Value) bool { return strings.HasSuffix(t.String(), "io.Reader") })
 		var recs []eval.Value
 		for i := 0; i < n; i++ {
-			recs = append(recs, encRecordSeq(c, fmt.Sprintf("%s#%d", strings.TrimPrefix(renderWire(a[0]), "reader:"), i), hard))
+			recs = append(recs, encRecordSeq(c, fmt.Sprintf("%s#%d", strings.TrimPrefix(renderWire(rd), "reader:"), i), hard))
 		}
 		return eval.Tuple{eval.NewSlice(recs...), eval.Nil{}}
 	}
@@ -147,13 +149,25 @@ func wiringList(c *core.Ctx, rule string) {
 
 // resultsSender: a splitter stage delivers one result per query on its results channel before reporting done.
 func resultsSender(c *core.Ctx, pkg, typ string, queriesArg, resultsArg int) wireCanned {
-	return func(a []eval.Value) eval.Value {
-		n := 0
-		if sl, ok := a[queriesArg].(eval.Slice); ok {
-			n = sl.Len()
-		}
-		ch, _ := a[resultsArg].(*eval.ChanVal)
+	return func(a []eval.Value, sig *types.Signature) eval.Value {
 		t := namedType(c, pkg, typ)
+		n := 0
+		// the queries: the (first) slice of records among the arguments; the results channel: the one carrying typ
+		if q, ok := wireFind(a, sig, func(pt types.Type, v eval.Value) bool {
+			sl, isSl := pt.Underlying().(*types.Slice)
+			if !isSl {
+				return false
+			}
+			_, isStruct := sl.Elem().Underlying().(*types.Struct)
+			_, isVal := v.(eval.Slice)
+			return isStruct && isVal
+		}).(eval.Slice); ok {
+			n = q.Len()
+		}
+		ch, _ := wireFind(a, sig, func(pt types.Type, v eval.Value) bool {
+			ct, isCh := pt.Underlying().(*types.Chan)
+			return isCh && t != nil && types.Identical(ct.Elem(), t)
+		}).(*eval.ChanVal)
 		for i := 0; i < n && ch != nil && t != nil; i++ {
 			r := absValue(t, "res", eval.K(0)).(*eval.StructVal)
 			r.F["qidx"] = eval.K(int64(i))
@@ -165,7 +179,7 @@ func resultsSender(c *core.Ctx, pkg, typ string, queriesArg, resultsArg int) wir
 	}
 }
 
-func okNil(a []eval.Value) eval.Value { return eval.Nil{} }
+func okNil(a []eval.Value, sig *types.Signature) eval.Value { return eval.Nil{} }
 
 // ---- closest.Closest(query, target, measure, out, threads) / ClosestN(n, maxdist, query, target, measure, out, table, threads)
 func wiringClosest(c *core.Ctx, rule string) {
@@ -321,9 +335,13 @@ func wiringTopRanking(c *core.Ctx, rule string) {
 		args = append(args, eval.FConst(0.25), eval.K(777), nofill, eval.K(push))
 		canned := map[string]wireCanned{
 			"fastaio.ReadEncodeAlignmentToList": refList(c, 1),
-			"updown.readCSVToUDLList":           func(a []eval.Value) eval.Value { return eval.Tuple{udLines(c, "csvquery", 2), eval.Nil{}} },
-			"updown.fastaToUDLList":             func(a []eval.Value) eval.Value { return eval.Tuple{udLines(c, "fastaquery", 2), eval.Nil{}} },
-			"updown.writeUpdownTable":           okNil, "updown.writeUpDownCatchment": okNil,
+			"updown.readCSVToUDLList": func(a []eval.Value, sig *types.Signature) eval.Value {
+				return eval.Tuple{udLines(c, "csvquery", 2), eval.Nil{}}
+			},
+			"updown.fastaToUDLList": func(a []eval.Value, sig *types.Signature) eval.Value {
+				return eval.Tuple{udLines(c, "fastaquery", 2), eval.Nil{}}
+			},
+			"updown.writeUpdownTable": okNil, "updown.writeUpDownCatchment": okNil,
 			"updown.splitInput": resultsSender(c, "pkg/updown", "updownCatchmentStruct", 0, 9),
 		}
 		sc := wireScenario{label: label, numCPU: 2, args: args, canned: canned, wantErr: wantErr}
@@ -398,14 +416,14 @@ func wireTopRankingArrays(c *core.Ctx, sizes [5]int64, dists [4]int64, push int6
 
 // ---- annotation models shared by the two Variants entry points
 func wireGenbank(origin string) wireCanned {
-	return func(a []eval.Value) eval.Value {
+	return func(a []eval.Value, sig *types.Signature) eval.Value {
 		gb := &eval.StructVal{F: map[string]eval.Value{"ORIGIN": bytesVal(origin), "FEATURES": eval.NewSlice(), "_tag": eval.S("genbank(" + renderWire(a[0]) + ")")}}
 		return eval.Tuple{gb, eval.Nil{}}
 	}
 }
 
 func wireGFF(c *core.Ctx, fasta []string, regionEnd int64) wireCanned {
-	return func(a []eval.Value) eval.Value {
+	return func(a []eval.Value, sig *types.Signature) eval.Value {
 		fm := eval.NewMap()
 		frT := namedType(c, "pkg/fastaio", "FastaRecord")
 		for i, s := range fasta {
@@ -427,7 +445,7 @@ func wireGFF(c *core.Ctx, fasta []string, regionEnd int64) wireCanned {
 }
 
 func wireRegions(tag string) wireCanned {
-	return func(a []eval.Value) eval.Value {
+	return func(a []eval.Value, sig *types.Signature) eval.Value {
 		r := &eval.StructVal{F: map[string]eval.Value{"_tag": eval.S("regions(" + tag + ")")}}
 		return eval.Tuple{eval.NewSlice(r), eval.NewSlice(eval.K(1)), eval.Nil{}}
 	}
@@ -532,13 +550,17 @@ func wiringVariants(c *core.Ctx, rule string) {
 					}
 					refRec := encRecordSeq(c, "REFID", false)
 					canned := map[string]wireCanned{
-						"variants.findReference":      func(a []eval.Value) eval.Value { return eval.Tuple{refRec, eval.Nil{}} },
+						"variants.findReference":      func(a []eval.Value, sig *types.Signature) eval.Value { return eval.Tuple{refRec, eval.Nil{}} },
 						"genbank.ReadGenBank":         wireGenbank("ttga"),
 						"gff.ReadGFF":                 wireGFF(c, []string{"TTGA"}, 4),
 						"variants.RegionsFromGenbank": wireRegions("genbank"), "variants.RegionsFromGFF": wireRegions("gff"),
 						// the streaming reader: when the reference is to be taken from the head of the stream, it is there
-						"fastaio.ReadEncodeAlignment": func(a []eval.Value) eval.Value {
-							if ch, ok := a[2].(*eval.ChanVal); ok {
+						"fastaio.ReadEncodeAlignment": func(a []eval.Value, sig *types.Signature) eval.Value {
+							recT := namedType(c, "pkg/fastaio", "EncodedFastaRecord")
+							if ch, ok := wireFind(a, sig, func(pt types.Type, v eval.Value) bool {
+								ct, isCh := pt.Underlying().(*types.Chan)
+								return isCh && recT != nil && types.Identical(ct.Elem(), recT)
+							}).(*eval.ChanVal); ok {
 								r := encRecordSeq(c, "REFID", false)
 								ch.Sent = append(ch.Sent, r)
 								ch.Feed = append(ch.Feed, r)
@@ -576,6 +598,52 @@ func wiringVariants(c *core.Ctx, rule string) {
 			}
 		}
 	}
+	// an annotation kind the library does not know is an error, not an unannotated run
+	for _, suffix := range []string{"txt", "", "gbk"} {
+		scs = append(scs, wireScenario{label: "annotation kind " + fmtS(suffix), numCPU: 2, wantErr: true,
+			canned: map[string]wireCanned{"genbank.ReadGenBank": wireGenbank("ttga"), "gff.ReadGFF": wireGFF(c, []string{"TTGA"}, 4),
+				"variants.RegionsFromGenbank": wireRegions("genbank"), "variants.RegionsFromGFF": wireRegions("gff"),
+				"variants.findReference": func(a []eval.Value, sig *types.Signature) eval.Value {
+					return eval.Tuple{encRecordSeq(c, "REFID", false), eval.Nil{}}
+				}},
+			args: []eval.Value{msaFile, false, eval.S("REFID"), wr("reader:annotation"), eval.S(suffix), wr("writer:out"), eval.K(-1), eval.K(-1), false, eval.FConst(0), false, eval.K(1)}})
+	}
 	dumpWiring(c, "pkg/variants", "Variants", scs[:1])
 	checkWiring(c, rule, "pkg/variants", "Variants", scs)
+}
+
+// ---- sam.Indels(samFile, insOut, delOut, threshold) (deprecated; still a command, so C18/C19 apply)
+func wiringIndels(c *core.Ctx, rule string) {
+	mapSender := func(arg int, tag string) wireCanned {
+		return func(a []eval.Value, sig *types.Signature) eval.Value {
+			if ch, ok := wireFind(a, sig, func(pt types.Type, v eval.Value) bool {
+				ct, isCh := pt.Underlying().(*types.Chan)
+				if !isCh {
+					return false
+				}
+				_, isMap := ct.Elem().Underlying().(*types.Map)
+				return isMap
+			}).(*eval.ChanVal); ok {
+				m := eval.NewMap()
+				m.Set(eval.K(1), eval.S(tag))
+				ch.Sent = append(ch.Sent, m)
+				ch.Feed = append(ch.Feed, m)
+			}
+			return nil
+		}
+	}
+	var scs []wireScenario
+	for _, cpu := range []int{1, 3} {
+		for _, thr := range []int64{1, 2, 7} {
+			scs = append(scs, wireScenario{label: fmt.Sprintf("threshold=%d cpus=%d", thr, cpu), numCPU: cpu,
+				args: []eval.Value{wr("reader:sam"), wr("writer:insertions"), wr("writer:deletions"), eval.K(thr)},
+				canned: map[string]wireCanned{"sam.populateInsMap": mapSender(1, "insertions"), "sam.populateDelMap": mapSender(1, "deletions"),
+					"sam.writeInsMap": okNil, "sam.writeDelMap": okNil},
+				want: cat([]string{"sam.getSamRecords(reader:sam, chan, chan, chan)", "sam.populateInsMap(chan, chan, chan)", "sam.populateDelMap(chan, chan, chan)",
+					"sam.writeInsMap(writer:insertions, map(1), " + fmtI(thr) + ")", "sam.writeDelMap(writer:deletions, map(1), " + fmtI(thr) + ")"},
+					rep(cpu, "sam.getIndels(chan, chan, chan, chan)"))})
+		}
+	}
+	dumpWiring(c, "pkg/sam", "Indels", scs[:1])
+	checkWiring(c, rule, "pkg/sam", "Indels", scs)
 }
